@@ -1,34 +1,452 @@
-"""Abstract array algebra (DESIGN §3.5) - filled in by the array-pipeline properties."""
+"""Abstract array algebra (DESIGN §3.5): numpy/scipy pipelines up to their algebraic laws.
+
+Arrays are elements of an uninterpreted sort `Arr` (complex-valued in general) with
+    alen, add, scale (real scalar), cscale (complex scalar), mul (element-wise), zeros, ones,
+    concat, take (prefix), fft, ifft, re, im, conj, roll, at (real part of an element), energy
+and the laws below as quantified axioms (assumption A5 - each law is a textbook property of the
+numpy/scipy function it describes; they are hypotheses, never proved here).
+"""
+import z3
+
 from .values import *   # noqa
+from .engine import num_binop, num_cmp, z_and, z_or, z_not, z_ite, as_bool
+from .reals import R, I, to_real
+
+Arr = z3.DeclareSort("Arr")
+_ids2 = [0]
+
+alen = z3.Function("alen", Arr, I)
+a_add = z3.Function("a_add", Arr, Arr, Arr)
+a_scale = z3.Function("a_scale", R, Arr, Arr)
+a_mul = z3.Function("a_mul", Arr, Arr, Arr)
+a_zeros = z3.Function("a_zeros", I, Arr)
+a_ones = z3.Function("a_ones", I, Arr)
+a_concat = z3.Function("a_concat", Arr, Arr, Arr)
+a_take = z3.Function("a_take", Arr, I, Arr)
+a_fft = z3.Function("a_fft", Arr, Arr)
+a_ifft = z3.Function("a_ifft", Arr, Arr)
+a_re = z3.Function("a_re", Arr, Arr)
+a_im = z3.Function("a_im", Arr, Arr)
+a_roll = z3.Function("a_roll", Arr, I, Arr)
+a_at = z3.Function("a_at", Arr, I, R)
+a_energy = z3.Function("a_energy", Arr, R)
+a_isreal = z3.Function("a_isreal", Arr, z3.BoolSort())
+a_bounded1 = z3.Function("a_bounded1", Arr, z3.BoolSort())      # every element has modulus <= 1
+a_fftfreq = z3.Function("a_fftfreq", I, R, Arr)
+a_delay = z3.Function("a_delay", I, I, Arr)                      # frequency response of a delay by k samples, length n
+a_abs = z3.Function("a_abs", Arr, Arr)
+
+
+def laws():
+    """The assumed laws.  Every law is stated so that it is TRUE in the following total interpretation, which
+    pyvc.selfcheck evaluates with numpy/scipy on random instances (so the axiom set is consistent and each axiom is
+    a fact about the real library functions):  Arr = finite complex sequences;  add/mul of sequences of different
+    length = the first/second operand;  take(a, n) = a[:clip(n, 0, len)];  at(a, i) = Re a[i] inside the range and 0
+    outside;  delay(k, n)[m] = exp(-2 pi i k m / n);  energy = sum |x|^2;  bounded1 = all |x| <= 1."""
+    a, b, r = z3.Consts("a b r", Arr)
+    c = z3.Real("c")
+    n, k, i = z3.Ints("n k i")
+    L = []
+    same = lambda x, y: alen(x) == alen(y)
+
+    def fa(vs, body, pats):
+        L.append(z3.ForAll(vs, body, patterns=pats))
+    # lengths
+    fa([a, b], alen(a_add(a, b)) == alen(a), [a_add(a, b)])
+    fa([c, a], alen(a_scale(c, a)) == alen(a), [a_scale(c, a)])
+    fa([a, b], alen(a_mul(a, b)) == alen(b), [a_mul(a, b)])
+    fa([n], z3.Implies(n >= 0, alen(a_zeros(n)) == n), [a_zeros(n)])
+    fa([n], z3.Implies(n >= 0, alen(a_ones(n)) == n), [a_ones(n)])
+    fa([a, b], alen(a_concat(a, b)) == alen(a) + alen(b), [a_concat(a, b)])
+    fa([a, n], z3.Implies(z3.And(n >= 0, n <= alen(a)), alen(a_take(a, n)) == n), [a_take(a, n)])
+    for f in (a_fft, a_ifft, a_re, a_im, a_abs):
+        fa([a], alen(f(a)) == alen(a), [f(a)])
+    fa([a, k], alen(a_roll(a, k)) == alen(a), [a_roll(a, k)])
+    fa([a], alen(a) >= 0, [alen(a)])
+    fa([n, c], z3.Implies(n >= 0, alen(a_fftfreq(n, c)) == n), [a_fftfreq(n, c)])
+    fa([k, n], z3.Implies(n >= 0, alen(a_delay(k, n)) == n), [a_delay(k, n)])
+    # linearity of fft, ifft, re, im, take, element-wise product with a fixed array, zero padding
+    for f in (a_fft, a_ifft, a_re, a_im):
+        fa([a, b], z3.Implies(same(a, b), f(a_add(a, b)) == a_add(f(a), f(b))), [f(a_add(a, b))])
+        fa([c, a], f(a_scale(c, a)) == a_scale(c, f(a)), [f(a_scale(c, a))])
+    fa([a, b, n], z3.Implies(same(a, b), a_take(a_add(a, b), n) == a_add(a_take(a, n), a_take(b, n))), [a_take(a_add(a, b), n)])
+    fa([c, a, n], a_take(a_scale(c, a), n) == a_scale(c, a_take(a, n)), [a_take(a_scale(c, a), n)])
+    fa([r, a, b], z3.Implies(z3.And(same(a, b), same(r, a)), a_mul(r, a_add(a, b)) == a_add(a_mul(r, a), a_mul(r, b))),
+       [a_mul(r, a_add(a, b))])
+    fa([r, c, a], z3.Implies(same(r, a), a_mul(r, a_scale(c, a)) == a_scale(c, a_mul(r, a))), [a_mul(r, a_scale(c, a))])
+    fa([r, c, a], z3.Implies(same(r, a), a_mul(a_scale(c, r), a) == a_scale(c, a_mul(r, a))), [a_mul(a_scale(c, r), a)])
+    fa([a, b, n], z3.Implies(z3.And(same(a, b), n >= 0),
+                             a_concat(a_add(a, b), a_zeros(n)) == a_add(a_concat(a, a_zeros(n)), a_concat(b, a_zeros(n)))),
+       [a_concat(a_add(a, b), a_zeros(n))])
+    fa([c, a, n], z3.Implies(n >= 0, a_concat(a_scale(c, a), a_zeros(n)) == a_scale(c, a_concat(a, a_zeros(n)))),
+       [a_concat(a_scale(c, a), a_zeros(n))])
+    # identities
+    fa([a], a_ifft(a_fft(a)) == a, [a_ifft(a_fft(a))])
+    fa([a, n], z3.Implies(n == alen(a), a_mul(a_ones(n), a) == a), [a_mul(a_ones(n), a)])
+    fa([a, b], z3.Implies(same(a, b), a_mul(a, b) == a_mul(b, a)), [a_mul(a, b)])
+    fa([a, b, r], z3.Implies(z3.And(same(a, b), same(b, r)), a_mul(a_mul(a, b), r) == a_mul(a, a_mul(b, r))), [a_mul(a_mul(a, b), r)])
+    fa([a, b, n], z3.Implies(n == alen(a), a_take(a_concat(a, b), n) == a), [a_take(a_concat(a, b), n)])
+    fa([a], z3.Implies(a_isreal(a), a_re(a) == a), [a_re(a)])
+    fa([a, b], z3.Implies(z3.And(a_isreal(a), a_isreal(b)), a_isreal(a_concat(a, b))), [a_concat(a, b)])
+    fa([a, b], z3.Implies(z3.And(a_isreal(a), a_isreal(b), same(a, b)), a_isreal(a_add(a, b))), [a_add(a, b)])
+    fa([c, a], z3.Implies(a_isreal(a), a_isreal(a_scale(c, a))), [a_scale(c, a)])
+    fa([n], a_isreal(a_zeros(n)), [a_zeros(n)])
+    fa([a, n], z3.Implies(a_isreal(a), a_isreal(a_take(a, n))), [a_take(a, n)])
+    fa([a, k], z3.Implies(a_isreal(a), a_isreal(a_roll(a, k))), [a_roll(a, k)])
+    fa([a], a_isreal(a_re(a)), [a_re(a)])
+    # energy (Parseval and friends)
+    fa([a], a_energy(a) >= 0, [a_energy(a)])
+    fa([a], a_energy(a_fft(a)) == z3.ToReal(alen(a)) * a_energy(a), [a_energy(a_fft(a))])
+    fa([a], z3.ToReal(alen(a)) * a_energy(a_ifft(a)) == a_energy(a), [a_energy(a_ifft(a))])
+    fa([a, n], a_energy(a_take(a, n)) <= a_energy(a), [a_energy(a_take(a, n))])
+    fa([a], a_energy(a_re(a)) <= a_energy(a), [a_energy(a_re(a))])
+    fa([a, n], z3.Implies(n >= 0, a_energy(a_concat(a, a_zeros(n))) == a_energy(a)), [a_energy(a_concat(a, a_zeros(n)))])
+    fa([r, a], z3.Implies(z3.And(a_bounded1(r), same(r, a)), a_energy(a_mul(r, a)) <= a_energy(a)), [a_energy(a_mul(r, a))])
+    # element access (real part of element i)
+    fa([a, b, i], z3.Implies(i >= 0, a_at(a_concat(a, b), i) == z3.If(i < alen(a), a_at(a, i), a_at(b, i - alen(a)))),
+       [a_at(a_concat(a, b), i)])
+    fa([n, i], a_at(a_zeros(n), i) == 0, [a_at(a_zeros(n), i)])
+    fa([a, n, i], z3.Implies(z3.And(i >= 0, i < n), a_at(a_take(a, n), i) == a_at(a, i)), [a_at(a_take(a, n), i)])
+    fa([a, k, i], z3.Implies(z3.And(i >= 0, i < alen(a), alen(a) > 0), a_at(a_roll(a, k), i) == a_at(a, (i - k) % alen(a))),
+       [a_at(a_roll(a, k), i)])
+    fa([a, i], a_at(a_re(a), i) == a_at(a, i), [a_at(a_re(a), i)])
+    fa([a, b, i], z3.Implies(same(a, b), a_at(a_add(a, b), i) == a_at(a, i) + a_at(b, i)), [a_at(a_add(a, b), i)])
+    fa([c, a, i], a_at(a_scale(c, a), i) == c * a_at(a, i), [a_at(a_scale(c, a), i)])
+    # DFT shift theorem: multiplying the spectrum by the response of a k-sample delay rolls the signal
+    fa([a, k, n], z3.Implies(z3.And(n == alen(a), n > 0), a_mul(a_delay(k, n), a_fft(a)) == a_fft(a_roll(a, k))),
+       [a_mul(a_delay(k, n), a_fft(a))])
+    fa([k, n], a_bounded1(a_delay(k, n)), [a_delay(k, n)])
+    return L
+
+
+_LAWS = None
+
+
+def get_laws():
+    global _LAWS
+    if _LAWS is None:
+        _LAWS = laws()
+    return _LAWS
 
 
 class AbsArr:
-    pass
+    def __init__(self, term):
+        self.term = term
+        _ids2[0] += 1
+        self.ident = _ids2[0]
+        self.base = None
+
+    @property
+    def n(self):
+        return alen(self.term)
+
+    def copy(self):
+        return AbsArr(self.term)
+
+    def __repr__(self):
+        return "AbsArr(%s)" % self.term
 
 
-def np_call(it, ctx, name, a, k):
-    raise Unsupported("abstract array function %s" % name)
+def ensure_laws(ctx):
+    if not getattr(ctx, "_abs_laws", False):
+        ctx._abs_laws = True
+        for l in get_laws():
+            ctx.pc.append(l)
+
+
+def lift_arr(ctx, x):
+    if isinstance(x, AbsArr):
+        return x.term
+    raise Unsupported("abstract array operation with %r" % (x,))
+
+
+def const_of(x):
+    """value of a SymArr known to be constant (np.zeros/np.ones/np.full of symbolic length, never written to)"""
+    c = getattr(x, "const", None)
+    if isinstance(x, SymArr) and c is not None and c[1] is x.elem:
+        return c[0]
+    return None
+
+
+def from_const(x):
+    v = const_of(x)
+    if v is None:
+        raise Unsupported("abstract array operation with %r" % (x,))
+    if v == 0:
+        return AbsArr(a_zeros(lift(x.n)))
+    if v == 1:
+        return AbsArr(a_ones(lift(x.n)))
+    return AbsArr(a_scale(to_real(v), a_ones(lift(x.n))))
 
 
 def binop(ctx, op, a, b):
-    raise Unsupported("abstract array op")
+    ensure_laws(ctx)
+    if isinstance(a, SymArr):
+        a = from_const(a)
+    if isinstance(b, SymArr):
+        b = from_const(b)
+    if isinstance(a, AbsArr) and isinstance(b, AbsArr):
+        if not ctx.branch(alen(a.term) == alen(b.term)):
+            if ctx.branch(z3.Or(alen(a.term) == 1, alen(b.term) == 1)):
+                raise Unsupported("broadcast of a length-1 abstract array")
+            raise_("ValueError", "operands could not be broadcast together")
+        if op == "+":
+            return AbsArr(a_add(a.term, b.term))
+        if op == "-":
+            return AbsArr(a_add(a.term, a_scale(z3.RealVal(-1), b.term)))
+        if op == "*":
+            return AbsArr(a_mul(a.term, b.term))
+        raise Unsupported("abstract array %s" % op)
+    arr, sc, left = (a, b, True) if isinstance(a, AbsArr) else (b, a, False)
+    if isinstance(sc, Cx):
+        raise Unsupported("complex scalar times abstract array")
+    if not is_scalar(sc):
+        raise Unsupported("abstract array %s %r" % (op, sc))
+    s = to_real(sc)
+    if op == "*":
+        return AbsArr(a_scale(s, arr.term))
+    if op == "/" and left:
+        return AbsArr(a_scale(1 / s, arr.term))
+    if op == "+" and not is_z3(sc) and sc == 0:
+        return AbsArr(arr.term)
+    raise Unsupported("abstract array %s scalar" % op)
 
 
 def unop(op, a):
-    raise Unsupported("abstract array op")
+    if op == "-":
+        return AbsArr(a_scale(z3.RealVal(-1), a.term))
+    raise Unsupported("abstract array unary " + op)
 
 
 def compare(ctx, op, a, b):
-    raise Unsupported("abstract array compare")
+    """element-wise comparison: an abstract boolean mask (only its any()/all() can be observed)"""
+    ensure_laws(ctx)
+    m = AbsArr(ctx.fresh("mask", Arr))
+    m.is_mask = True
+    return m
 
 
 def getitem(ctx, o, idx):
-    raise Unsupported("abstract array getitem")
+    ensure_laws(ctx)
+    if isinstance(idx, SliceVal) and idx.lo is None and idx.step is None and idx.hi is not None:
+        return AbsArr(a_take(o.term, lift(idx.hi)))
+    if is_scalar(idx):
+        return a_at(o.term, lift(idx))
+    raise Unsupported("abstract array index %r" % (idx,))
 
 
 def attr(it, ctx, o, name):
-    raise Unsupported("abstract array attr")
+    if name == "shape":
+        return (o.n,)
+    if name == "copy":
+        return Builtin("AbsArr.copy", lambda: o.copy())
+    raise Unsupported("abstract array attribute " + name)
 
 
 def array_equal(ctx, a, b):
-    raise Unsupported("abstract array_equal")
+    if isinstance(a, AbsArr) and isinstance(b, AbsArr):
+        return a.term == b.term
+    raise Unsupported("array_equal on mixed abstract arrays")
+
+
+def apply_ufunc(it, ctx, uf, args):
+    ensure_laws(ctx)
+    hook = getattr(uf, "abs_hook", None)
+    if hook is not None:
+        return hook(it, ctx, args)
+    if len(args) != 1:
+        raise Unsupported("uninterpreted callable on several abstract arrays")
+    f = z3.Function("map_" + uf.name, Arr, Arr)
+    t = f(args[0].term)
+    ctx.assume(alen(t) == alen(args[0].term))
+    return AbsArr(t)
+
+
+def np_call(it, ctx, name, a, k):
+    ensure_laws(ctx)
+    a = list(a)
+    if name in ("array", "asarray", "copy"):
+        return AbsArr(a[0].term)
+    if name == "concatenate":
+        parts = list(a[0])
+        ts = []
+        for p in parts:
+            if isinstance(p, AbsArr):
+                ts.append(p.term)
+            elif isinstance(p, Vec) and all((not is_z3(x)) and x == 0 for x in p.data):
+                ts.append(a_zeros(z3.IntVal(len(p.data))))
+            elif isinstance(p, SymArr) and const_of(p) is not None:
+                ts.append(from_const(p).term)
+            else:
+                raise Unsupported("concatenate of abstract array with %r" % (p,))
+        t = ts[0]
+        for x in ts[1:]:
+            t = a_concat(t, x)
+        return AbsArr(t)
+    if name in ("fft", "ifft"):
+        f = a_fft if name == "fft" else a_ifft
+        return AbsArr(f(lift_arr(ctx, a[0])))
+    if name == "real":
+        return AbsArr(a_re(a[0].term))
+    if name == "imag":
+        return AbsArr(a_im(a[0].term))
+    if name == "abs":
+        return AbsArr(a_abs(a[0].term))
+    if name == "fftfreq":
+        n = k.get("n", a[0] if a else None)
+        d = k.get("d", a[1] if len(a) > 1 else 1)
+        return AbsArr(a_fftfreq(lift(n), to_real(d)))
+    if name == "roll":
+        return AbsArr(a_roll(a[0].term, lift(a[1])))
+    if name in ("max", "min", "sum"):
+        return ctx.fresh("abs_" + name, R)
+    if name in ("any", "all"):
+        return ctx.fresh("abs_" + name, z3.BoolSort())
+    raise Unsupported("abstract array function %s" % name)
+
+
+class ZerosArr:
+    """np.zeros(n) with symbolic n, kept symbolic until it meets an abstract array"""
+
+    def __init__(self, n):
+        self.n = n
+
+
+# ---------------------------------------------------------------------------
+# cross-check of the assumed laws against numpy/scipy (run by pyvc.selfcheck)
+# ---------------------------------------------------------------------------
+
+def numeric_check(trials=60, seed=1):
+    """evaluate every law on random instances in the interpretation described in laws(); returns a list of
+    (law, instance) failures - empty when each axiom is a numerically confirmed fact about numpy/scipy.fft"""
+    import random
+    import numpy as np
+    try:
+        import scipy.fft as F
+    except Exception:       # pragma: no cover
+        F = np.fft
+    rng = random.Random(seed)
+
+    def rarr(n, real):
+        x = np.array([rng.uniform(-1, 1) for _ in range(n)])
+        return x if real else x + 1j * np.array([rng.uniform(-1, 1) for _ in range(n)])
+
+    def take(a, n):
+        return a[:max(0, min(n, len(a)))]
+
+    def at(a, i):
+        return float(np.real(a[i])) if 0 <= i < len(a) else 0.0
+
+    FN = {
+        "alen": lambda a: len(a),
+        "a_add": lambda a, b: a + b if len(a) == len(b) else a,
+        "a_scale": lambda c, a: c * a,
+        "a_mul": lambda a, b: a * b if len(a) == len(b) else b,
+        "a_zeros": lambda n: np.zeros(max(n, 0)),
+        "a_ones": lambda n: np.ones(max(n, 0)),
+        "a_concat": lambda a, b: np.concatenate((a, b)),
+        "a_take": take,
+        "a_fft": lambda a: F.fft(a) if len(a) else a,
+        "a_ifft": lambda a: F.ifft(a) if len(a) else a,
+        "a_re": lambda a: np.real(a),
+        "a_im": lambda a: np.imag(a),
+        "a_abs": lambda a: np.abs(a),
+        "a_roll": lambda a, k: np.roll(a, k),
+        "a_at": at,
+        "a_energy": lambda a: float(np.sum(np.abs(a) ** 2)),
+        "a_isreal": lambda a: bool(np.all(np.imag(a) == 0)),
+        "a_bounded1": lambda a: bool(np.all(np.abs(a) <= 1 + 1e-12)),
+        "a_fftfreq": lambda n, d: F.fftfreq(max(n, 1), d=d if d != 0 else 1.0)[:max(n, 0)],
+        "a_delay": lambda k, n: np.exp(-2j * np.pi * k * np.arange(max(n, 0)) / n) if n > 0 else np.zeros(0),
+    }
+
+    def close(x, y):
+        if isinstance(x, np.ndarray) or isinstance(y, np.ndarray):
+            return len(x) == len(y) and bool(np.allclose(x, y, rtol=1e-9, atol=1e-9))
+        if isinstance(x, bool) or isinstance(y, bool):
+            return x == y
+        return abs(x - y) <= 1e-9 * max(1.0, abs(x), abs(y))
+
+    def ev(e, env):
+        if z3.is_var(e):
+            return env[z3.get_var_index(e)]
+        if z3.is_int_value(e):
+            return e.as_long()
+        if z3.is_rational_value(e):
+            return float(e.as_fraction())
+        if z3.is_true(e):
+            return True
+        if z3.is_false(e):
+            return False
+        k = e.decl().kind()
+        ch = e.children()
+        nm = e.decl().name()
+        if k == z3.Z3_OP_UNINTERPRETED:
+            return FN[nm](*[ev(c, env) for c in ch])
+        if k == z3.Z3_OP_IMPLIES:
+            return (not ev(ch[0], env)) or ev(ch[1], env)
+        if k == z3.Z3_OP_AND:
+            return all(ev(c, env) for c in ch)
+        if k == z3.Z3_OP_OR:
+            return any(ev(c, env) for c in ch)
+        if k == z3.Z3_OP_NOT:
+            return not ev(ch[0], env)
+        if k == z3.Z3_OP_ITE:
+            return ev(ch[1], env) if ev(ch[0], env) else ev(ch[2], env)
+        if k == z3.Z3_OP_EQ:
+            return close(ev(ch[0], env), ev(ch[1], env))
+        vs = [ev(c, env) for c in ch]
+        if k == z3.Z3_OP_LE:
+            return vs[0] <= vs[1] + 1e-9 * max(1.0, abs(vs[1]))
+        if k == z3.Z3_OP_GE:
+            return vs[0] >= vs[1] - 1e-9 * max(1.0, abs(vs[1]))
+        if k == z3.Z3_OP_LT:
+            return vs[0] < vs[1]
+        if k == z3.Z3_OP_GT:
+            return vs[0] > vs[1]
+        if k == z3.Z3_OP_ADD:
+            return sum(vs)
+        if k == z3.Z3_OP_SUB:
+            return vs[0] - sum(vs[1:])
+        if k == z3.Z3_OP_MUL:
+            r = 1
+            for v in vs:
+                r = r * v
+            return r
+        if k == z3.Z3_OP_MOD:
+            return vs[0] % vs[1]
+        if k == z3.Z3_OP_TO_REAL:
+            return float(vs[0])
+        if k == z3.Z3_OP_UMINUS:
+            return -vs[0]
+        raise ValueError("numeric_check: operator %s" % e.decl())
+
+    bad = []
+    for law in laws():
+        nv = law.num_vars()
+        for t in range(trials):
+            n0 = rng.randint(0, 6)
+            env = []
+            # de Bruijn: variable 0 is the LAST bound variable
+            for j in range(nv):
+                srt = law.var_sort(nv - 1 - j)
+                if srt == Arr:
+                    # mostly equal lengths (the interesting case), sometimes not; sometimes real, sometimes bounded
+                    n_ = n0 if rng.random() < 0.8 else rng.randint(0, 6)
+                    x = rarr(n_, rng.random() < 0.5)
+                    if rng.random() < 0.3 and n_:
+                        x = x / max(1.0, float(np.max(np.abs(x))))
+                    env.append(x)
+                elif srt == I:
+                    env.append(rng.choice([n0, n0, rng.randint(-2, 8)]))
+                else:
+                    env.append(rng.uniform(-2, 2))
+            try:
+                ok = ev(law.body(), env)
+            except Exception as ex:     # an evaluation error is a failure of the check, not of the law
+                bad.append((str(law)[:160], "evaluation error: %r" % ex))
+                break
+            if not ok:
+                bad.append((str(law)[:160], [repr(v)[:60] for v in env]))
+                break
+    return bad
